@@ -55,6 +55,7 @@ fn main() {
             "mt" => Some(ctl_scen::mt_family),
             "ahead" => Some(ctl_scen::ahead_family),
             "vanish" => Some(ctl_scen::vanish_family),
+            "vanishdata" => Some(ctl_scen::vanishdata_family),
             _ => None,
         };
         if let Some(f) = fam {
